@@ -238,8 +238,8 @@ func (r *rewriter) isBuiltin(e ast.Expr, name string) bool {
 	return ok
 }
 
-var timeFuncs = map[string]bool{"Now": true, "Since": true, "Until": true, "Sleep": true, "After": true, "AfterFunc": true, "NewTimer": true, "Timer": true}
-var timeUnsupported = map[string]bool{"Tick": true, "NewTicker": true, "Ticker": true}
+var timeFuncs = map[string]bool{"Now": true, "Since": true, "Until": true, "Sleep": true, "After": true, "AfterFunc": true, "NewTimer": true, "Timer": true, "NewTicker": true, "Ticker": true, "Tick": true}
+var timeUnsupported = map[string]bool{}
 var syncNames = map[string]bool{"Mutex": true, "RWMutex": true, "WaitGroup": true, "Once": true, "Cond": true, "NewCond": true, "Locker": true}
 var ctxFuncs = map[string]bool{"WithTimeout": true, "WithDeadline": true}
 
